@@ -24,6 +24,7 @@ EXPLANATION = (
     "of every call to a crate function returning Result<_, Error> inside these entry points can reach the caller's "
     "outcome. For the schemes that refuse by panic (MultilinearPC) the aborting assertion must depend on the request. "
     "Which side of each numeric boundary is refused, and that in-domain requests never abort, are not decided.")
+EXPLANATION += (" Shared rule: R5p - the bound refusal of the two KZG-based trims does not look at one position of the caller's unsorted list.")
 RULE = ("instances = refusal rows (entry point x variant) + admission-first rows + one instance per Result<_,Error> "
         "call site in the entry points' closures + abort rows; an instance holds iff the flow / dominance fact holds")
 
@@ -130,6 +131,14 @@ def run(rep, ctx, tier):
         b = f.find1(**find)
         if b is not None:
             R5.check_measured(rep, ctx, "R5m", key, b, None, "TooManyCoefficients", idx, "polynomial", g=graphs.get((b.id, None)))
+    # R5p (shared with C09): the refusal of an unsupported bound in the two KZG-based trims does not look at one position
+    # of the caller's unsorted list
+    for sk in ("marlin_kzg10", "sonic_kzg10"):
+        from .. import tables as T2
+        b = f.find1("trim", self_adt=T2.SCHEMES[sk]["adt"], trait=T2.PC)
+        if b is not None:
+            R5.check_not_positional(rep, ctx, "R5p", "%s.trim" % sk, b, T2.SCHEMES[sk]["adt"], T2.ROLES["trim"]["enforced_degree_bounds"],
+                                    "enforced degree bounds")
     # R5s: what `open` can refuse, `batch_open` can refuse, and what that can refuse, `open_combinations` can refuse
     # (and likewise along check -> batch_check -> check_combinations): siblings agree on refusals
     from ..rules import siblings as R5S
